@@ -619,7 +619,109 @@ pub fn json_tokens(w: &mut W, text: &str) -> bool {
 	ok && i == b.len()
 }
 
+/// Name resolution, exhaustively over a grid: enclosing namespace × spelling of the defined name ×
+/// namespace attribute × kind × position of the definition × spelling of a later reference
+/// (7 560 documents; whether each parses and what each reference resolves to is decided by the
+/// model, whose rules are proved against the specification's in `Theorems/C07.lean`).
+pub fn generate_names_table(emit: &mut dyn FnMut(String)) {
+	let outer_ns = [None, Some("a"), Some("a.b")];
+	let names = ["X", "a.X", ".X", "b.X", "a.b.X", "c.d.X"];
+	let ns_attr = [None, Some(""), Some("a"), Some("c"), Some("a.b")];
+	let refs = ["X", ".X", "a.X", "b.X", "a.b.X", "c.X", "c.d.X"];
+	for eo in outer_ns {
+		for name in names {
+			for na in ns_attr {
+				for kind in 0..3 {
+					for wrap in 0..4 {
+						for r in refs {
+							let mut def = match kind {
+								0 => json!({"type": "record", "name": name, "fields": []}),
+								1 => json!({"type": "enum", "name": name, "symbols": ["A"]}),
+								_ => json!({"type": "fixed", "name": name, "size": 2}),
+							};
+							if let Some(na) = na {
+								def.as_object_mut().unwrap().insert("namespace".into(), json!(na));
+							}
+							let placed = match wrap {
+								0 => def,
+								1 => json!({"type": "array", "items": def}),
+								2 => json!({"type": "map", "values": def}),
+								_ => json!(["null", def]),
+							};
+							let mut outer = json!({
+								"type": "record",
+								"name": "Outer",
+								"fields": [{"name": "f0", "type": placed}, {"name": "f1", "type": r}]
+							});
+							if let Some(eo) = eo {
+								outer.as_object_mut().unwrap().insert("namespace".into(), json!(eo));
+							}
+							let text = serde_json::to_string(&outer).unwrap();
+							let mut w = W::default();
+							w.t("schema").t("any").xs(&text);
+							let mut jw = W::default();
+							if json_tokens(&mut jw, &text) {
+								w.t(&jw.s).t("-");
+								emit(w.s);
+							}
+						}
+					}
+				}
+			}
+		}
+	}
+}
+
+/// Second grid: the reference sits *inside* the record whose name / namespace vary (a record's
+/// fields are read under the record's own namespace, null included), the target is defined before
+/// it at the outer level.
+pub fn generate_names_table2(emit: &mut dyn FnMut(String)) {
+	let outer_ns = [None, Some("a"), Some("a.b")];
+	let names = ["X", "a.X", ".X", "b.X", "a.b.X", "c.d.X"];
+	let ns_attr = [None, Some(""), Some("a"), Some("c"), Some("a.b")];
+	let targets = ["Y", "a.Y", "b.Y", ".Y"];
+	let refs = ["Y", ".Y", "a.Y", "b.Y", "a.b.Y"];
+	for eo in outer_ns {
+		for name in names {
+			for na in ns_attr {
+				for t in targets {
+					for r in refs {
+						let mut inner = json!({"type": "record", "name": name, "fields": [{"name": "g", "type": r}]});
+						if let Some(na) = na {
+							inner.as_object_mut().unwrap().insert("namespace".into(), json!(na));
+						}
+						let mut outer = json!({
+							"type": "record",
+							"name": "Outer",
+							"fields": [
+								{"name": "d", "type": {"type": "fixed", "name": t, "size": 3}},
+								{"name": "f0", "type": inner},
+								{"name": "f1", "type": {"type": "array", "items": r}}
+							]
+						});
+						if let Some(eo) = eo {
+							outer.as_object_mut().unwrap().insert("namespace".into(), json!(eo));
+						}
+						let text = serde_json::to_string(&outer).unwrap();
+						let mut w = W::default();
+						w.t("schema").t("any").xs(&text);
+						let mut jw = W::default();
+						if json_tokens(&mut jw, &text) {
+							w.t(&jw.s).t("-");
+							emit(w.s);
+						}
+					}
+				}
+			}
+		}
+	}
+}
+
 pub fn generate(stream: &str, seed: u64, n: usize, emit: &mut dyn FnMut(String)) {
+	if stream == "names-table" {
+		generate_names_table2(emit);
+		return generate_names_table(emit);
+	}
 	let mut rng = rng_from(seed, stream);
 	for _ in 0..n {
 		let budget = *[2usize, 4, 8, 14].choose(&mut rng).unwrap();
